@@ -178,6 +178,31 @@ CHECKS: dict[str, tuple[str, str, str, str, str]] = {
         "TLA+ denotational spec with function-call semantics (PtSem) evaluated by TLC on "
         "directly applied / traced / inlined graphs exported from the real code",
         "DESIGN.md section 4 C12"),
+    "C13": (
+        "model_checking",
+        "PtMapper.tla models CachedMapper.rec / CachedWalkMapper.rec (stack of frames, cache, "
+        "first-seen result pool, per-node and per-key call counters, error flag) with actions "
+        "Enter / Hit / Collide / ReturnT (replace_if_different + TransformMapperCache.add incl. "
+        "the created-duplicate rule) / ReturnO; TLC model-checks OncePerKey, AllChildrenReached, "
+        "SharedMapsToOne, IdentityWhenUnchanged, ResultsDeduplicated, NoMoreNodesThanGiven, "
+        "CollisionReported, DuplicateReported over ALL DAG shapes with <= 4 (thorough 5) nodes, "
+        "with and without structural duplicates, for transform / combine / walk x key function "
+        "variants. The same module emits every shape with the model's final states; each is "
+        "instantiated as real pytato DAGs so that every edge kind (operand, shape, index, CSR "
+        "part, send payload, call / loopy binding, dict entry, container) occurs, every "
+        "reflectively discovered mapper class (49) is run under observation (sys.setprofile on "
+        "map_* frames, wrapped cache add/retrieve) and its observed final state must be one of "
+        "the model's; every recorded event trace (incl. depth-60 ladders with 2^60 paths and 30 "
+        "mapper-based public functions) is validated against PtMapper's actions by "
+        "PtMapperTrace; nodes reached are compared with an independent reflective walk.",
+        "Trusted: TLC, the sys.setprofile recorder (a mapper that visits a node without rec / "
+        "map_* is invisible), the reflective walk over dataclass fields. Real instances are "
+        "structural (never evaluated). Some mapper classes are only observed inside their entry "
+        "points (listed in the evidence).",
+        "TLC model checking of a TLA+ model of cached traversal over all small DAG shapes + "
+        "replay of TLC-generated shapes on real mappers + trace validation of recorded mapper "
+        "events against the model's actions",
+        "DESIGN.md section 4 C13; notes/mapper.md"),
     "C14": (
         "exploration",
         "Seeded random DAG programs and systematic single operations (static shapes, no sparse "
@@ -282,6 +307,26 @@ CHECKS: dict[str, tuple[str, str, str, str, str]] = {
         "classifications (artefact validation) over an enumerated API family plus mutated "
         "near-misses",
         "DESIGN.md section 4 C19"),
+    "C20": (
+        "model_checking",
+        "PtGraph.tla defines predecessors / users (with multiplicity), the send convention, "
+        "topological order, node / type / tag counts, multiplicities, call sites and the "
+        "materialised set; PtGraphMC model-checks their internal relations (users converse of "
+        "predecessors with multiplicity, counts add up, numbering is a topological order) over "
+        "55 740 typed instances with <= 4 nodes. For every real instance (all edge-kind schemes "
+        "x roots, API-built graphs incl. symbolic shapes, functions, distributed nodes, stored "
+        "tags, dictionaries; ~2000 graphs quick) the answers of the real analyses "
+        "(ListOf/DirectPredecessorsGetter, get_list_of_users, get_nusers, get_users, "
+        "rec_get_user_nodes, TopoSortMapper, get_num_nodes, get_node_type_counts, "
+        "get_node_multiplicities, get_num_tags_of_type, get_num_call_sites, "
+        "collect_materialized_nodes) are exported together with the reflectively exported graph "
+        "and judged by TLC (PtGraphCheck) in 9 clause families.",
+        "Trusted: TLC, the reflective walk (never pytato's mappers). Where the documentation "
+        "leaves a choice (derived-shape arrays as predecessors, counts with or without function "
+        "bodies, type-based materialisation) both answers are accepted.",
+        "TLA+ specification of the graph relations model-checked over all small typed DAGs + "
+        "TLC validation of the real analyses' answers on reflectively exported graphs",
+        "DESIGN.md section 4 C20; notes/mapper.md"),
 }
 
 NOT_APPLICABLE: dict[str, str] = {}
